@@ -354,7 +354,7 @@ func zzH08_unpackargs_bind() {
 //
 //verif:unwind 40
 func zzH08_unpackargs_types() {
-	r := zzChoice("rot", 5)
+	r := zzChoice("rot", zzParam("vartype_pairs", 3, 5))
 	tt := []int{r, (r + 1) % 5}
 	zzUnpackArgsCore(2, tt, zzParam("argkinds", 3, 5), 2, 2, 2)
 }
@@ -364,7 +364,7 @@ func zzH08_unpackargs_types() {
 //
 //verif:unwind 40
 func zzH08_unpackpositional() {
-	n := zzChoice("nvars", 4)
+	n := zzChoice("nvars", zzParam("maxvars", 2, 3)+1)
 	r := zzChoice("rot", 5)
 	var targets []*zzTarget
 	var vars []any
